@@ -748,6 +748,8 @@ func (vc *VC) needEAQuant() {
 	if !vc.boxFacts["q:ea"] {
 		vc.boxFacts["q:ea"] = true
 		vc.assume("(forall ((a Int) (i Int)) (! (and (= (ea_arr (ea a i)) a) (= (ea_idx (ea a i)) i) (= (base (ea a i)) (base a)) (= (akind (ea a i)) 1) (not (= (ea a i) 0))) :pattern ((ea a i))))")
+		// every element address is the address of some element: ea is onto the addresses of kind 1
+		vc.assume("(forall ((a Int)) (! (=> (= (akind a) 1) (= (ea (ea_arr a) (ea_idx a)) a)) :pattern ((ea_arr a))))")
 	}
 }
 
@@ -1054,6 +1056,6 @@ func (vc *VC) oblige(class, label, guard, formula, clause string, props []string
 // its antecedent is unreachable at all of them
 var siteRe = regexp.MustCompile(`#[0-9]+`)
 
-var guardCoverClasses = map[string]bool{"at-call": true, "onk": true, "nok": true, "post": true, "inv-keep": true, "at-event": true, "pre@call": true}
+var guardCoverClasses = map[string]bool{"at-store": true, "at-call": true, "onk": true, "nok": true, "post": true, "inv-keep": true, "at-event": true, "pre@call": true}
 
 var coverClasses = map[string]bool{"at-call": true, "onk": true, "nok": true, "post": true, "at-event": true}
